@@ -60,8 +60,12 @@ def case_adjoint(dim, kernel, dtype, dx, ncomp, mset, seed, shift="default", n_m
     n = comm.n
     # the marker sets are defined relative to the cells: they move with the grid origin
     P = (marker_set(mset, dim, shape, dx, np.float64, seed)[:, :n] + (comm.shift - dx / 2)).astype(real_t)
-    comm.locate(P.copy())
+    Pc = P.copy()
+    comm.locate(Pc)
+    comm.locate(Pc)  # the same caller-owned array handed in twice, as for a static marker set
     fails = []
+    if not np.array_equal(Pc, P):
+        fails.append(Fail(f"{kernel}:positions-modified", "the communicator modified the caller's marker-position array", dim=dim, set=mset))
     ncell = int(np.prod(shape))
     fshape = shape if ncomp == 1 else (ncomp, *shape)
     lshape = (n,) if ncomp == 1 else (ncomp, n)
